@@ -458,6 +458,12 @@ def execute(line: str):
                 "array": guarded(lambda: Array(Dtype(name, scale=s), [x]).data, bits_code(name)),
                 "lengthkw": guarded(lambda: Dtype(name, NBITS[name], scale=s).build(x), bits_code(name)),
             }
+            # Array.astype to the SAME format under another scale keeps the values, not the codes (round 9: a raw-copy
+            # fast path keyed on a Dtype equality that ignores the scale): it is the re-encoding of the decoded values
+            extra["astype"] = guarded(lambda: Array(Dtype(name), [x]).astype(Dtype(name, scale=s)).data, bits_code(name))
+            extra["astype_ref"] = guarded(lambda: Array(Dtype(name, scale=s), Array(Dtype(name), [x]).tolist()).data, bits_code(name))
+            extra["astype_back"] = guarded(lambda: Array(Dtype(name, scale=s), [x]).astype(Dtype(name)).data, bits_code(name))
+            extra["astype_back_ref"] = guarded(lambda: Array(Dtype(name), Array(Dtype(name, scale=s), [x]).tolist()).data, bits_code(name))
             return out, extra
         if op == "sdec":
             s, b = parse_scale(f[4]), mkcode(name, int(f[5], 16))
@@ -581,6 +587,17 @@ def exec_modeseq(name, order, x):
     try:
         for ch in order:
             o.mxfp_overflow = MODE_OF[ch]
+            rejected = None
+            if len(order) == 4:
+                # a REJECTED assignment in between (round 9: a setter that stored the value before validating it): the
+                # setting in force stays the last valid one
+                try:
+                    o.mxfp_overflow = MODE_OF["o" if ch == "s" else "s"].capitalize()
+                    rejected = "accepted"
+                except ValueError:
+                    rejected = "!ValueError"
+                except Exception as e:                              # noqa: BLE001
+                    rejected = "!" + err_name(e)
             routes = {
                 "Bits(token)": lambda: Bits(tok),
                 "BitArray(token)": lambda: BitArray(tok),
@@ -610,6 +627,9 @@ def exec_modeseq(name, order, x):
                 res["keyword == token"] = "True" if (kw == tok) else "False"
             except Exception as e:                                  # noqa: BLE001
                 res["keyword == token"] = "!" + err_name(e)
+            if rejected is not None:
+                res["rejected assignment of an invalid mxfp_overflow value"] = rejected
+                res["options.mxfp_overflow after it"] = "same" if o.mxfp_overflow == MODE_OF[ch] else repr(o.mxfp_overflow)
             steps.append(res)
             main.append(res["Bits(token)"])
     finally:
@@ -674,6 +694,10 @@ def oracle(line: str, out: str, extra: dict):
                 want = exp
                 if route == "keyword == token":
                     want = "!ValueError" if exp == "!ValueError" else "True"
+                if route.startswith("rejected assignment"):
+                    want = "!ValueError"
+                if route == "options.mxfp_overflow after it":
+                    want = "same"
                 if got != want:
                     return (f"{name}={x!r} ({f[4]}) via {route} under mxfp_overflow={m!r} (step {i + 1} of the history "
                             f"{' -> '.join(hist)}, caches not cleared in between): expected {want}, got {got}")
@@ -688,6 +712,10 @@ def oracle(line: str, out: str, extra: dict):
             exp = "err ValueError" if e == "!ValueError" else "ok " + e
         if out != exp:
             return f"Dtype({name}, scale={s!r}).build({x!r}) under {mode}: expected {exp} (code of value/scale), got {out}"
+        for k in ("astype", "astype_back"):
+            if k in extra and extra[k] != extra[k + "_ref"]:
+                return (f"Array({name}{'' if k == 'astype' else ', scale=%r' % s}, [{x!r}]).astype({name}{', scale=%r' % s if k == 'astype' else ''}) under {mode}: "
+                        f"got {extra[k]}, re-encoding the decoded values gives {extra[k + '_ref']}")
         return _routes_agree(out, extra, f"Dtype({name}, scale={s!r}).build({x!r})")
     if op == "sdec":
         s, code = parse_scale(f[4]), int(f[5], 16)
